@@ -5,8 +5,8 @@
    the two algorithms agree unconditionally, else for the well-formed containers of the property
    (rectangular panel, n >= 1, c >= 1, T >= 2, distinct names). *)
 From Coq Require Import ZArith List Bool Lia Sorted Permutation.
-Require Import SkV.Lib.Base SkV.C15.Model SkV.C15.Lemmas SkV.C15.Proofs SkV.C15.Long SkV.C15.Prims
-  SkV.C15.Gen.
+Require Import SkV.Lib.Base SkV.C15.Model SkV.C15.Lemmas SkV.C15.Proofs SkV.C15.Long SkV.C15.Paths
+  SkV.C15.Prims SkV.C15.Gen.
 Import ListNotations.
 Open Scope Z_scope.
 
@@ -81,12 +81,15 @@ Proof. apply sorted_NoDup; [apply name_ltb_irrefl|apply name_ltb_trans]. Qed.
 Lemma bridge_make_column_names c : gen_make_column_names c = default_names c.
 Proof.
   unfold gen_make_column_names, default_names, py_range, fstr, default_name.
-  rewrite <- (map_of_nat_seq 0 c), map_map. reflexivity.
+  pose proof (map_of_nat_seq 0 c) as H. cbn [Z.of_nat] in H. rewrite <- H, map_map. reflexivity.
 Qed.
 
 Section Bridge.
   Context {V : Type}.
   Implicit Types (X p : panel V) (x : nested V) (m : mi V) (L : long V) (t : tab2 V).
+
+  (* a well-formed nested frame: rectangular panel and as many column labels as variables *)
+  Definition wf_nested_ (n c T : nat) x : Prop := wf_panel n c T (n_rows x) /\ length (n_cols x) = c.
 
   Lemma bridge_cell_is_series_or_array (c : cell V) :
     gen_cell_is_series_or_array c = cell_nested c.
@@ -129,18 +132,18 @@ Section Bridge.
   (* -------------------------------------------------------------------------------------------- *)
   (* columns appended one by one *)
 
-  Lemma fold_setcol {I} (F : @dfb V -> I * name -> @dfb V) (f : I -> list (@ncell V))
-        (l : list (I * name)) (acc : @dfb V) :
-    (forall df j c, F df (j, c) = df_setcol df c (f j)) ->
-    NoDup (map fst acc ++ map snd l) ->
-    fold_left F l acc = acc ++ map (fun jc => (snd jc, f (fst jc))) l.
+  Lemma fold_setcol {E} (F : @dfb V -> E -> @dfb V) (lab : E -> name) (g : E -> list (@ncell V))
+        (l : list E) (acc : @dfb V) :
+    (forall df e, F df e = df_setcol df (lab e) (g e)) ->
+    NoDup (map fst acc ++ map lab l) ->
+    fold_left F l acc = acc ++ map (fun e => (lab e, g e)) l.
   Proof.
-    intro HF. revert acc. induction l as [|[j c] l IH]; intros acc Hnd; cbn [fold_left map].
+    intro HF. revert acc. induction l as [|e l IH]; intros acc Hnd; cbn [fold_left map].
     - rewrite app_nil_r. reflexivity.
-    - assert (Hnew : existsb (fun col : name * list ncell => name_eqb (fst col) c) acc = false).
-      { destruct (existsb _ acc) eqn:E; [|reflexivity]. exfalso.
-        apply existsb_exists in E. destruct E as [col [Hin Heq]]. apply name_eqb_eq in Heq.
-        cbn [map snd] in Hnd. apply NoDup_remove_2 in Hnd. apply Hnd. apply in_or_app. left.
+    - assert (Hnew : existsb (fun col : name * list ncell => name_eqb (fst col) (lab e)) acc = false).
+      { destruct (existsb _ acc) eqn:E1; [|reflexivity]. exfalso.
+        apply existsb_exists in E1. destruct E1 as [col [Hin Heq]]. apply name_eqb_eq in Heq.
+        cbn [map] in Hnd. apply NoDup_remove_2 in Hnd. apply Hnd. apply in_or_app. left.
         apply in_map_iff. exists col. split; assumption. }
       rewrite HF. unfold df_setcol. rewrite Hnew. rewrite IH.
       + rewrite <- app_assoc. reflexivity.
@@ -169,7 +172,7 @@ Section Bridge.
   Proof.
     intros Hwf Hn. rewrite (a3_to_nested_eq n c T X Hwf).
     unfold gen_from_3d_numpy_to_nested, np_shape3.
-    rewrite (wf_len n c T X Hwf), (wf_shape_cols n c T X Hwf), (wf_shape_time n c T X Hwf).
+    rewrite (wf_len n c T X Hwf), (wf_shape_cols n c T X Hwf).
     assert (Hnames : match cn with
                      | None => Ok (gen_make_column_names c)
                      | Some l => if negb (Nat.eqb (length l) c) then Err else Ok l
@@ -179,26 +182,10 @@ Section Bridge.
       - rewrite bridge_make_column_names. reflexivity. }
     rewrite Hnames. cbn [rbind]. set (nms := names_or_default cn c).
     assert (Hlen : length nms = c) by (apply names_or_default_length; exact Hn).
-    assert (Hnd : NoDup nms).
-    { subst nms. destruct cn as [l|]; cbn; [apply Hn|].
-      unfold default_names. generalize 0. induction c as [|c' IH]; intro s; cbn; constructor.
-      - intro H. apply in_map_iff in H. destruct H as [j [Hj Hin]]. apply ziota_In in Hin.
-        unfold default_name in Hj. inversion Hj as [Hd].
-        assert (j = s).
-        { rewrite <- (DecimalZ.of_to j), <- (DecimalZ.of_to s). unfold digit_codes in Hd.
-          destruct (Z.to_int j) as [u|u], (Z.to_int s) as [u'|u']; cbn in Hd.
-          - f_equal. f_equal. revert u' Hd. induction u; destruct u'; cbn; intro Hd;
-              try discriminate; try reflexivity; f_equal; apply IHu; congruence.
-          - exfalso. destruct u; cbn in Hd; congruence.
-          - exfalso. destruct u'; cbn in Hd; congruence.
-          - inversion Hd as [Hd']. f_equal. f_equal. revert u' Hd'.
-            induction u; destruct u'; cbn; intro Hd'; try discriminate; try reflexivity;
-              f_equal; apply IHu; congruence. }
-        lia.
-      - apply IH. }
+    assert (Hnd : NoDup nms) by (apply names_or_default_NoDup; exact Hn).
     set (col := fun j => map (fun i => mk_cell (kind_of b) (np_get3 X i j)) (py_range n)).
-    rewrite (fold_setcol _ col (py_enumerate nms) pd_DataFrame_empty).
-    2:{ intros df j cl. destruct b; reflexivity. }
+    rewrite (fold_setcol _ snd (fun jc => col (fst jc)) (py_enumerate nms) pd_DataFrame_empty).
+    2:{ intros df [j cl]. destruct b; reflexivity. }
     2:{ cbn. unfold py_enumerate. rewrite map_snd_combine by apply seq_length. exact Hnd. }
     cbn [pd_DataFrame_empty app]. f_equal. unfold df_finish, dfb_columns.
     assert (Hn1 : (1 <= n)%nat) by (destruct Hwf; lia).
@@ -226,5 +213,206 @@ Section Bridge.
       rewrite (transpose_map_map (fun i j => np_get3 X i j)).
       apply get3_table; [apply (wf_len n c T X Hwf)|].
       intros inst Hi. apply (wf_inst n c T X Hwf inst Hi).
+  Qed.
+
+  Lemma bridge_from_3d_numpy_to_nested_rejects n c T X l b :
+    wf_panel n c T X -> length l <> c -> gen_from_3d_numpy_to_nested X (Some l) b = Err.
+  Proof.
+    intros Hwf Hl. unfold gen_from_3d_numpy_to_nested, np_shape3.
+    rewrite (wf_shape_cols n c T X Hwf). apply Nat.eqb_neq in Hl. rewrite Hl. reflexivity.
+  Qed.
+
+  (* -------------------------------------------------------------------------------------------- *)
+  (* 2-D table -> nested (either container: np.array gets no `index` keyword) *)
+
+  Lemma rmapM_ok {A B} (f : A -> B) (l : list A) : rmapM (fun a => Ok (f a)) l = Ok (map f l).
+  Proof. induction l as [|a l IH]; [reflexivity|]. cbn. rewrite IH. reflexivity. Qed.
+
+  Lemma rmapM_ext_ok {A B} (g : A -> B) (f : A -> res B) (l : list A) :
+    (forall a, f a = Ok (g a)) -> rmapM f l = Ok (map g l).
+  Proof.
+    intro H. induction l as [|a l IH]; [reflexivity|]. cbn. rewrite H, IH. reflexivity.
+  Qed.
+
+  Lemma bridge_from_2d_array_to_nested t b :
+    t <> [] -> gen_from_2d_array_to_nested t b = Ok (tab_to_nested (kind_of b) t).
+  Proof.
+    intro Hne. unfold gen_from_2d_array_to_nested, np_shape2, tab_to_nested.
+    rewrite (rmapM_ext_ok (fun i => mk_cell (kind_of b) (np_get2 t i))).
+    - cbn [rbind]. f_equal. unfold df_finish, df_of_cells, dfb_columns, dfb_kind, dfb_nrows, py_range.
+      cbn [map fst snd]. rewrite !map_map. cbn [snd mk_cell].
+      assert (Hrows : map (fun i => np_get2 t i) (seq 0 (length t)) = t) by apply at_table.
+      rewrite Hrows, map_length, seq_length. f_equal.
+      + destruct t as [|r t']; [congruence|]. reflexivity.
+      + apply transpose_one_column.
+    - intros i. destruct b; reflexivity.
+  Qed.
+
+  (* -------------------------------------------------------------------------------------------- *)
+  (* multi-index frame -> 3-D array (frames of panels; the caller names level 0 / level 1) *)
+
+  Lemma bridge_from_multi_index_to_3d_numpy n c T p cols :
+    wf_panel n c T p -> length cols = c ->
+    gen_from_multi_index_to_3d_numpy (mkM cols (mi_rows T p)) (Some 0%nat) (Some 1%nat) =
+    Ok (mi_to_3d (mkM cols (mi_rows T p))).
+  Proof.
+    intros Hwf Hc. rewrite (mi_to_3d_rows n c T p Hwf cols Hc).
+    unfold gen_from_multi_index_to_3d_numpy, mi_nlevels, mi_level_unique, mi_shape1, mi_values,
+      np_ravel2, np_reshape3.
+    cbn [Nat.eqb negb is_none orb opt_get m_rows m_cols mi_level]. f_equal.
+    change (map (mi_level 0) (mi_rows T p)) with (map r_inst (mi_rows T p)).
+    change (map (mi_level 1) (mi_rows T p)) with (map r_time (mi_rows T p)).
+    rewrite (mi_rows_n_instances n c T p Hwf), (mi_rows_n_timepoints n c T p Hwf), !ziota_length.
+    rewrite (mi_rows_vals T p), Hc, concat_concat_map.
+    set (blocks := map (transpose T) p).
+    assert (Hb : forall blk, In blk blocks -> rect T c blk).
+    { intros blk Hin. apply in_map_iff in Hin. destruct Hin as [inst [<- Hi]].
+      apply transpose_rect. apply (wf_inst n c T p Hwf inst Hi). }
+    assert (Hlen : length (map (@concat V) blocks) = n)
+      by (unfold blocks; rewrite !map_length; apply (wf_len n c T p Hwf)).
+    rewrite <- Hlen at 1. rewrite chunk_n_concat.
+    2:{ apply Forall_forall. intros fl Hin. apply in_map_iff in Hin. destruct Hin as [blk [<- Hin]].
+        apply (length_concat_rect T c). apply Hb. exact Hin. }
+    rewrite map_map.
+    rewrite (map_ext_in (fun blk => chunk_n T c (concat blk)) (fun blk => blk)).
+    2:{ intros blk Hin. destruct (Hb blk Hin) as [Hl HF]. rewrite <- Hl. apply chunk_n_concat.
+        exact HF. }
+    rewrite map_id. unfold np_swapaxes3. cbn [Nat.eqb andb orb]. unfold blocks. rewrite map_map.
+    rewrite <- (map_id p) at 2. apply map_ext_in. intros inst Hi.
+    pose proof (wf_inst n c T p Hwf inst Hi) as Hr.
+    destruct (transpose_rect c T inst Hr) as [Hl HF].
+    assert (Hhd : length (hd [] (transpose T inst)) = c).
+    { destruct (transpose T inst) as [|r rs] eqn:E.
+      - cbn in Hl. destruct Hwf as [_ [_ [HT _]]]. lia.
+      - inversion HF as [|? ? H1 H2]. exact H1. }
+    rewrite Hhd. apply transpose_involutive. exact Hr.
+  Qed.
+
+  Lemma bridge_from_multi_index_to_3d_numpy_rejects m a b :
+    a = None \/ b = None -> gen_from_multi_index_to_3d_numpy m a b = Err.
+  Proof.
+    intros [-> | ->]; unfold gen_from_multi_index_to_3d_numpy; cbn; [reflexivity|].
+    destruct a; reflexivity.
+  Qed.
+
+  (* -------------------------------------------------------------------------------------------- *)
+  (* nested -> 2-D table *)
+
+  Lemma bridge_from_nested_to_2d_array n c T x b :
+    wf_nested_ n c T x -> gen_from_nested_to_2d_array x b = Ok (nested_to_2d x).
+  Proof.
+    intros [Hwf Hc]. unfold gen_from_nested_to_2d_array, nested_to_2d, nested_shape1, py_range, np_hstack.
+    assert (Hblocks : map (fun i => nested_col_tolist x i) (seq 0 (length (n_cols x))) =
+                      transpose c (n_rows x)).
+    { rewrite Hc, transpose_at. reflexivity. }
+    rewrite Hblocks.
+    pose proof (wf_rect_series n c T _ Hwf) as Hr.
+    destruct (transpose_rect n c _ Hr) as [Hl HF].
+    assert (Hhd : length (hd [] (transpose c (n_rows x))) = n).
+    { destruct (transpose c (n_rows x)) as [|r rs] eqn:E.
+      - cbn in Hl. destruct Hwf as [_ [Hc1 _]]. lia.
+      - inversion HF as [|? ? H1 H2]. exact H1. }
+    rewrite Hhd, (transpose_involutive n c _ Hr). destruct b; reflexivity.
+  Qed.
+
+  (* -------------------------------------------------------------------------------------------- *)
+  (* multi-index frame -> nested, for ANY frame with distinct column labels *)
+
+  Lemma xs_col (rows : list ((Z * Z) * list V)) id j :
+    kser_xs_values (flat_map (fun r => map (fun v => (fst r, v)) (at_ (snd r) j)) rows) id 0 =
+    flat_map (fun row => at_ row j) (map snd (filter (fun r => r_inst r =? id) rows)).
+  Proof.
+    unfold kser_xs_values. induction rows as [|r rows IH]; [reflexivity|].
+    cbn [flat_map filter]. rewrite filter_app, map_app, IH. clear IH.
+    unfold at_ at 1. unfold r_inst at 2.
+    destruct (fst (fst r) =? id) eqn:E.
+    - cbn [map flat_map]. unfold at_ at 2.
+      destruct (nth_error (snd r) j); cbn [opt_list map filter fst snd app]; [rewrite E|];
+        reflexivity.
+    - destruct (nth_error (snd r) j); cbn [opt_list map filter fst snd app]; [rewrite E|];
+        reflexivity.
+  Qed.
+
+  Lemma bridge_from_multi_index_to_nested m b :
+    NoDup (m_cols m) -> m_cols m <> [] -> m_rows m <> [] ->
+    gen_from_multi_index_to_nested m (Some 0%nat) b = Ok (mi_to_nested (kind_of b) m).
+  Proof.
+    intros Hnd Hc Hr. unfold gen_from_multi_index_to_nested, mi_level_unique, mi_to_nested.
+    change (map (mi_level 0) (m_rows m)) with (map r_inst (m_rows m)).
+    set (ids := uniqz (map r_inst (m_rows m))).
+    set (g := fun e : name * @kser V =>
+                map (mk_cell (kind_of b)) (map (fun id => kser_xs_values (snd e) id 0%nat) ids)).
+    rewrite (fold_setcol _ fst g (mi_items m) pd_DataFrame_empty).
+    2:{ intros df [lab ser]. destruct b; reflexivity. }
+    2:{ cbn. unfold mi_items, py_enumerate. rewrite map_map. cbn [fst].
+        rewrite map_snd_combine by apply seq_length. exact Hnd. }
+    cbn [pd_DataFrame_empty app].
+    assert (Hlabels : map fst (mi_items m) = m_cols m).
+    { unfold mi_items, py_enumerate. rewrite map_map. cbn [fst].
+      apply map_snd_combine. apply seq_length. }
+    pose proof (Hlabels : map (fun x : name * @kser V => fst x) (mi_items m) = m_cols m) as Hlabels'.
+    unfold dfb_columns, mi_columns. rewrite map_map. cbn [fst]. rewrite Hlabels', names_eqb_refl.
+    cbn [negb]. f_equal. unfold df_finish, dfb_columns. rewrite !map_map. cbn [fst snd].
+    rewrite Hlabels'.
+    assert (Hids : ids <> []).
+    { unfold ids. destruct (m_rows m) as [|r rs]; [congruence|]. cbn. discriminate. }
+    assert (Hitems : mi_items m <> []).
+    { intro H. rewrite H in Hlabels. cbn in Hlabels. congruence. }
+    f_equal.
+    - (* cell kind *)
+      destruct (mi_items m) as [|e es]; [congruence|]. cbn. unfold g.
+      destruct ids as [|i is_]; [congruence|]. reflexivity.
+    - (* rows *)
+      assert (Hn : dfb_nrows (map (fun e => (fst e, g e)) (mi_items m)) = length ids).
+      { destruct (mi_items m) as [|e es]; [congruence|]. cbn. unfold g. rewrite !map_length.
+        reflexivity. }
+      rewrite Hn.
+      rewrite (map_ext (fun e => map snd (g e))
+                       (fun e => map (fun id => kser_xs_values (snd e) id 0%nat) ids)).
+      2:{ intro e. unfold g. rewrite map_map. cbn [mk_cell snd]. apply map_id. }
+      unfold mi_items. rewrite map_map. cbn [snd].
+      set (ser := fun j => flat_map (fun r => map (fun v => (fst r, v)) (at_ (snd r) j)) (m_rows m)).
+      rewrite (map_ext (fun jn : nat * name =>
+                          map (fun id => kser_xs_values (ser (fst jn)) id 0%nat) ids)
+                       (fun jn => (fun j => map (fun id => kser_xs_values (ser j) id 0%nat) ids)
+                                    (fst jn))) by reflexivity.
+      rewrite <- (map_map fst (fun j => map (fun id => kser_xs_values (ser j) id 0%nat) ids)).
+      unfold py_enumerate. rewrite map_fst_combine by apply seq_length.
+      rewrite (transpose_map_map (fun id j => kser_xs_values (ser j) id 0%nat)).
+      apply map_ext. intro id. rewrite transpose_at. apply map_ext. intro j. apply xs_col.
+  Qed.
+
+  Lemma bridge_from_multi_index_to_nested_rejects m b :
+    gen_from_multi_index_to_nested m None b = Err.
+  Proof. reflexivity. Qed.
+
+  (* -------------------------------------------------------------------------------------------- *)
+  (* long table -> nested, for ANY non-empty long table *)
+
+  Lemma long_pivot_by_01 L : long_pivot_by 0 1 L = long_pivot L.
+  Proof.
+    unfold long_pivot_by, long_pivot.
+    assert (Hk : forall e : lrow V, (l_role 0 e, l_role 1 e) = l_key e)
+      by (intros [[[i d] t0] v]; reflexivity).
+    rewrite (map_ext _ _ Hk). f_equal. apply map_ext. intro k. f_equal.
+    apply flat_map_ext_in. intros d _. f_equal. apply filter_ext. intro e. rewrite Hk. reflexivity.
+  Qed.
+
+  Lemma bridge_from_long_to_nested L cn :
+    L <> [] -> gen_from_long_to_nested L cn = Ok (long_to_nested cn L).
+  Proof.
+    intro Hne. unfold gen_from_long_to_nested, long_to_nested. rewrite long_pivot_by_01.
+    rewrite (bridge_from_multi_index_to_nested (long_pivot L) false).
+    - cbn [rbind kind_of]. destruct cn; reflexivity.
+    - apply name_sorted_NoDup. unfold long_pivot. cbn [m_cols]. apply sort_names_sorted.
+    - destruct L as [|e L']; [congruence|]. unfold long_pivot. cbn [m_cols]. intro H.
+      assert (Hin : In (l_dim e) (sort_names (map l_dim (e :: L'))))
+        by (apply sort_names_In; left; reflexivity).
+      unfold sort_names in Hin. rewrite H in Hin. destruct Hin.
+    - destruct L as [|e L']; [congruence|]. unfold long_pivot. cbn [m_rows]. intro H.
+      apply map_eq_nil in H.
+      assert (Hin : In (l_key e) (sort_keys (map l_key (e :: L')))).
+      { unfold sort_keys. apply sort_u_In; [apply key_eqb_eq|]. left. reflexivity. }
+      unfold sort_keys in Hin. rewrite H in Hin. destruct Hin.
   Qed.
 End Bridge.
